@@ -43,6 +43,15 @@ func extraSpecs() []*PropertySpec {
 		{ID: "C07", Rules: []string{"IS-HANDLER/IS-TRIM,BOUNDARY-ATOMIC", "RESTORE-RECONCILE"}, Decided: "a voter keeps the log suffix it has acknowledged when a snapshot that ends inside its log arrives (the suffix is dropped only if the entry at the snapshot's last index has a different term), and a restart discards the log only if it does not contain that entry"},
 		{ID: "C11", Rules: []string{"RESTORE-RECONCILE"}, Decided: "a restart between the publication of a received snapshot and the reset of the log does not bring back a log that conflicts with the snapshot"},
 		{ID: "C19", Rules: []string{"REPLAY-TAIL", "COMPACT-KEEP"}, Decided: "what Replay reads back is what was appended: the end of the last complete record is where the decoder stopped (not where a read-ahead buffer stopped), a torn tail is cut there, and compaction rewrites exactly the kept records"},
+		{ID: "C14", Rules: []string{"STATE-ATOMIC", "SNAP-ATOMIC", "LOG-WSP", "TMP-RENAME", "LOG-POSITION", "RECORD-OFFSET", "ERR-DISC"}, Decided: "each storage operation the property quantifies over leaves, at every crash point, a directory the constructors reopen: term/vote and snapshots are replaced atomically, log mutations are write-sync-publish, compaction goes through a synced temporary and a rename"},
+		{ID: "C04", Rules: []string{"LOG-POSITION", "ERR-DISC", "FATAL-IO"}, Decided: "no error of the log or state storage is dropped on the way to an acknowledgement; offsets recorded in the log are real positions"},
+		{ID: "C12", Rules: []string{"WALK-RM"}, Decided: "the cleanup of temporaries that NewLog runs before reopening cannot fail on what a crash leaves behind"},
+		{ID: "C02", Rules: []string{"RESTORE-COVER"}, Decided: "the vote is reloaded from storage on every start"},
+		{ID: "C08", Rules: []string{"ERR-DISC", "FATAL-IO"}, Decided: "an error of the state storage is never dropped: term and vote are durable or the node stops"},
+		{ID: "C10", Rules: []string{"CHUNK-BOUND", "SNAP-ATOMIC"}, Decided: "the bytes of a snapshot chunk are private to the send that carries them, and the metadata written next to a snapshot is built from the arguments of its creation"},
+		{ID: "C15", Rules: []string{"VOTE-REQUESTS", "PREVOTE-TOKEN"}, Decided: "a campaign asks every voter, and a prevote that was won leads to exactly one real candidacy"},
+		{ID: "C17", Rules: []string{"QUORUM-SHAPE"}, Decided: "the quorum that renews the lease is a strict majority of voters, and the single-voter shortcut applies only to a node that is itself the voter"},
+		{ID: "C09", Rules: []string{"IS-HANDLER/IS-COMPLETE"}, Decided: "an installed snapshot's configuration is applied together with it"},
 		{ID: "C12", Rules: []string{"LOG-POSITION"}, Decided: "the log file is never in append mode and is positioned whenever a new descriptor is installed, so a record's Offset is where the record is"},
 		{ID: "C19", Rules: []string{"LOG-POSITION"}, Decided: "as C12: offsets read back from storage equal the positions written"},
 		{ID: "C06", Rules: []string{"LOG-POSITION"}, Decided: "Truncate cuts the persistent log where the in-memory log says"},
